@@ -138,6 +138,7 @@ C11Entry(i) ==
 C11Spell(i) ==
   { Cmd("require", i, "", 0, sp, f) : sp \in {"sys", "Sys", "stat", "Stat", "STAT"}, f \in {"plain", "as"} }
   \cup { Cmd("require", i, "", 0, sp, "plain") : sp \in {ModSeq[1], "MA"} }
+  \cup { Cmd("bump", i, ModSeq[1], 1, "", "") }
 
 Cmds == UNION {CmdsOf(i) : i \in Interps}
 
